@@ -53,6 +53,7 @@ class State:
         self.keep = []
         self.caller_ctx = None
         self.request = None
+        self.bystander = None
 
     def ctx_id(self, c):
         if c is self.caller_ctx and c is not None:
@@ -105,18 +106,28 @@ def make_tracer(st, idx, logging_base=False):
     """logging_base: the tracer extends the library's own LoggingTracer (and lets it do its logging first)"""
     base = LoggingTracer if logging_base else Tracer
 
+    main = st
+
+    def of(request):
+        # the events of a concurrent bystander request (another request in flight on the same client) go to its own trace
+        by = main.bystander
+        return by if by is not None and request is by.request else main
+
     class T(base):
         def on_request_begin(self, trace_context, request):
             super().on_request_begin(trace_context, request)
+            st = of(request)
             st.ev.append({'ev': 'Begin', 't': idx, 'ctx': st.ctx_id(trace_context), 'req_same': request is st.request})
 
         def on_request_end(self, trace_context, request, response):
             super().on_request_end(trace_context, request, response)
+            st = of(request)
             st.ev.append({'ev': 'End', 't': idx, 'ctx': st.ctx_id(trace_context),
                           'resp': 'none' if response is None else 'response'})
 
         def on_error(self, trace_context, request, error):
             super().on_error(trace_context, request, error)
+            st = of(request)
             st.ev.append({'ev': 'Error', 't': idx, 'ctx': st.ctx_id(trace_context),
                           'exc_same': st.raised is None or error is st.raised})
     return T()
@@ -190,13 +201,56 @@ def run(scn, loop):
 
     hh = zlib.crc32(json.dumps({k: v for k, v in cfg.items() if k != 'kind'}, sort_keys=True).encode())   # the same for both halves
     tracers = [make_tracer(st, i + 1, logging_base=((hh // 2 + i) % 2 == 1)) for i in range(cfg['tracers'])]
+    # a concurrent bystander (variant by content, the same for both halves): while the first attempt of the request is in the
+    # transport, ANOTHER request is made on the same client and completes (async: another task; sync: another thread).
+    # Its attempt is traced and answered like any other; it is validated as a trace of its own.
+    with_by = (hh // 8) % 2 == 1
+    sb = None
+    if with_by:
+        sb = State({'scripts': [['ok']]})
+        sb.base_cls = st.base_cls
+        sb.request = pjrpc.Request('bystander', [7], id=77)
+        st.bystander = sb
+    started = []
+
+    def by_done(resp, exc):
+        if exc is None:
+            sb.ev.append({'ev': 'Return', 'o': classify_response(resp)})
+        else:
+            sb.ev.append({'ev': 'Raise', 'o': classify_exc(exc), 'same': sb.raised is None or exc is sb.raised})
+
     if is_async:
         class C(AbstractAsyncClient):
             async def _request(self, request_text, is_notification=False, **kwargs):
+                if sb is not None and '"bystander"' in request_text:
+                    return serve(sb, request_text, is_notification)
+                if sb is not None and not started:
+                    started.append(1)
+
+                    async def by():
+                        try:
+                            by_done(await self.send(sb.request), None)
+                        except BaseException as e:  # noqa
+                            by_done(None, e)
+                    await asyncio.ensure_future(by())
                 return serve(st, request_text, is_notification)
     else:
         class C(AbstractClient):
             def _request(self, request_text, is_notification=False, **kwargs):
+                if sb is not None and '"bystander"' in request_text:
+                    return serve(sb, request_text, is_notification)
+                if sb is not None and not started:
+                    started.append(1)
+                    import threading
+
+                    def by():
+                        try:
+                            by_done(self.send(sb.request), None)
+                        except BaseException as e:  # noqa
+                            by_done(None, e)
+                    th = threading.Thread(target=by)
+                    th.start()
+                    th.join()
                 return serve(st, request_text, is_notification)
     client = C(tracers=tracers, retry_strategy=make_strategy(cfg['client']))
     kwargs = {}
@@ -235,10 +289,19 @@ def run(scn, loop):
             st.ev.append({'ev': 'Return', 'o': classify_response(resp)})
         except BaseException as e:  # noqa
             st.ev.append({'ev': 'Raise', 'o': classify_exc(e), 'same': st.raised is None or e is st.raised})
-    return {'scn': scn, 'ev': st.ev}
+    out = [{'scn': scn, 'ev': st.ev}]
+    if sb is not None and started:
+        unset = {'k': 'unset', 's': {'n': 0, 'codes': 'na', 'excs': 'na', 'bo': {'fam': 'na', 'a': 0, 'b': 0, 'max': -1, 'jit': []}}}
+        out.append({'scn': {'cfg': dict(cfg, req='single', perreq=unset, perreq2=unset, ctxmode='default', rounds=1),
+                            'scripts': [['ok']], 'bystander': True}, 'ev': sb.ev})
+    return out
 
 
 if __name__ == '__main__':
     loop = asyncio.new_event_loop()
     from _guard import guarded
-    json.dump([guarded(run)(s, loop) for s in json.load(open(sys.argv[1]))], open(sys.argv[2], 'w'))
+    traces = []
+    for s in json.load(open(sys.argv[1])):
+        r = guarded(run)(s, loop)
+        traces.extend(r if isinstance(r, list) else [r])
+    json.dump(traces, open(sys.argv[2], 'w'))
